@@ -407,3 +407,82 @@ def rng(seed, prop):
 
 def case_hash(c):
     return hashlib.sha1(json.dumps(c, sort_keys=True, default=str).encode()).hexdigest()
+
+
+# ----------------------------------------------------------------------------
+# the standard shape of a "proof + correspondence" check
+
+
+def standard_run(prop, tier, seed, replay, *, dirs, props_file, trusted, gen_cases, vh_sub,
+                 imports, model_expr, canon_model, canon_impl, oracle, nontrivial, rule,
+                 level="proof", extra=None, per_file=400):
+    """1-2 prove (coq_phase), 3 build harness, 4 correspond (model by vm_compute vs implementation),
+    5 evaluate the property oracle on the implementation's results; report.
+    oracle(case, impl_result) -> [(key, what)] ; nontrivial(case, impl_result) -> bool."""
+    rep = Reporter(prop, tier, seed, level)
+    rep.assumptions = trusted
+    cr = coq_phase(dirs, props_file)
+    coq_coverage(rep, cr, "cd coq && make %s && coqc -Q . V %s  (+ hygiene grep, Print Assumptions allow-list)" % (props_file + "o", props_file), trusted)
+    proof_ok = cr.ok
+    if not proof_ok:
+        log("%s: proof phase failed: built=%s hygiene=%s bad_assumptions=%s failed=%s\n%s" % (
+            prop, cr.built, cr.hygiene, cr.bad_assumptions, cr.failed_files, cr.build_log[-1500:]))
+    ok, blog, bt = build_harness()
+    if not ok:
+        raise RuntimeError("harness build failed:\n" + blog)
+    if replay:
+        cases = [json.load(open(replay))["case"]]
+    else:
+        cases = gen_cases(tier, seed)
+    impl = run_vh(vh_sub, cases)
+    model = None
+    try:
+        exprs = [model_expr(c) for c in cases]
+        model = run_coq_cases(imports, "", exprs, prop.lower(), per_file=per_file)
+    except Exception as e:
+        log("%s: model evaluation failed: %s" % (prop, str(e)[-1500:]))
+    disagreements = []
+    if model is not None:
+        for c, r, m in zip(cases, impl, model):
+            if isinstance(r, dict) and "panic" in r:
+                disagreements.append((c, "impl panicked", r))
+                continue
+            cm = canon_model(c, m)
+            ci = canon_impl(c, r)
+            if cm != ci:
+                disagreements.append((c, {"impl": ci, "model": cm}))
+    nt = set()
+    for c, r in zip(cases, impl):
+        if nontrivial(c, r):
+            nt.add(case_hash(c))
+    found = 0
+    for c, r in zip(cases, impl):
+        for key, what in oracle(c, r):
+            if rep.violation(key, {"case": c, "impl": r}, what):
+                found += 1
+            break
+    if extra is not None:
+        found += extra(rep, tier, seed) or 0
+    tie_broken = (not proof_ok) or model is None or disagreements
+    if tie_broken and found == 0:
+        what = []
+        if not proof_ok:
+            what.append("theorems of coq/%s no longer check (failed files: %s; hygiene: %s; assumptions: %s)" % (
+                props_file, cr.failed_files, cr.hygiene, cr.bad_assumptions))
+        if model is None:
+            what.append("model could not be evaluated")
+        if disagreements:
+            what.append("correspondence model/implementation broken on %d of %d cases, first: %r" % (
+                len(disagreements), len(cases), disagreements[0]))
+        rep.violation("tie", {"broken": what, "first_disagreements": disagreements[:3]}, "; ".join(what)[:3000], no_input=True)
+    step = max(1, len(cases) // 5)
+    rep.coverage.update({
+        "evaluations": len(cases),
+        "distinct_nontrivial": len(nt),
+        "rule": rule,
+        "samples": [cases[i] for i in range(0, len(cases), step)][:5],
+        "correspondence_disagreements": len(disagreements),
+        "traces_validated_against_impl": len(cases) if model is not None else 0,
+        "harness_build_s": round(bt, 1),
+    })
+    return rep.finish()
